@@ -33,6 +33,7 @@ pub fn expand_expr(expr: pr::Expr) -> Result<pl::Expr> {
             named_args: v
                 .named_args
                 .into_iter()
+                .sorted_by(|a, b| a.0.cmp(&b.0))
                 .map(|(k, v)| -> Result<_> { Ok((k, expand_expr(v)?)) })
                 .try_collect()?,
         }),
